@@ -79,7 +79,10 @@ fn main() {
         }
         let mut t = Tally::default();
         let jf = |c: &avt_verif::case::Case, t: &mut Tally| props::judge(&prop, &r.part, c, t).unwrap_or(Verdict::Invalid("unknown property".into()));
-        match judge_caught(&jf, &r.case, &mut t) {
+        slot_begin(0, &r.part, &r.case);
+        let verdict = judge_caught(&jf, &r.case, &mut t);
+        slot_end(0);
+        match verdict {
             Verdict::Pass => {
                 println!("replay {}: property {} holds on this case", path.display(), prop);
                 std::process::exit(0);
@@ -152,10 +155,10 @@ fn main() {
     let wall = t0.elapsed().as_secs_f64();
     write_evidence(&env, &run.parts, &run.meta, wall, violations, run.extra);
     let evals: u64 = run.parts.iter().map(|p| p.evaluations).sum();
-    let nt: usize = run.parts.iter().map(|p| p.nontrivial.len()).sum();
+    let nt: usize = run.parts.iter().map(|p| p.nontrivial.len() + p.nontrivial_counted as usize).sum();
     println!("{} {} seed={} evaluations={} distinct_nontrivial={} violations={} wall={:.1}s", prop, tier.name(), seed, evals, nt, violations, wall);
     for p in &run.parts {
-        println!("  part {:<22} evals={:<9} steps={:<10} nontrivial={:<8} exhaustive={} known_hits={:?} excluded={} invalid={}", p.name, p.evaluations, p.steps, p.nontrivial.len(), p.exhaustive, p.known_hits, p.excluded, p.invalid);
+        println!("  part {:<22} evals={:<9} steps={:<10} nontrivial={:<8} exhaustive={} known_hits={:?} excluded={} invalid={}", p.name, p.evaluations, p.steps, p.nontrivial.len() + p.nontrivial_counted as usize, p.exhaustive, p.known_hits, p.excluded, p.invalid);
     }
     std::process::exit(if violations > 0 { 1 } else { 0 });
 }
